@@ -42,10 +42,14 @@ def run_config(cfg):
         helper = threading.Thread(target=stop_helper.wait, daemon=True)
         helper.start()
     try:
-        ctx = cfg['context']
+        ctx = dict(cfg['context'])
+        if cfg.get('lock_in_context'):
+            # a context value that can be neither copied nor pickled, and is compared by identity (serial and fork only)
+            ctx['handle'] = threading.Lock()
         lab = Lab(storage=os.path.join(d, 'store'), runner_backend=cfg['backend'], max_workers=cfg['max_workers'],
                   context=dict(ctx), notebook=False)
-        leaves = [(U.TCtx if i % 2 == 0 else U.TCtxI)(label=i) if cfg['filter'] else U.Ta(label=i) for i in range(cfg['n'])]
+        leaves = [U.TCtxNone(label=i) if cfg['filter'] == 'none' else ((U.TCtx if i % 2 == 0 else U.TCtxI)(label=i) if cfg['filter'] else U.Ta(label=i))
+                  for i in range(cfg['n'])]
         tops = [U.Tab(label=100 + i, deps=(leaves[i], leaves[(i + 1) % cfg['n']]), reads=(0, 1)) for i in range(cfg['n'])]
         refs = [U.TRef(label=200 + i) for i in range(2)]
         reftop = U.TRef(label=210, deps=(refs[0], refs[1]))
@@ -81,6 +85,8 @@ def run_config(cfg):
                 leaked.append(t.label)
         # expected: the universe's own filter for the filtering types (also the one that only inherits it), identity otherwise
         def expected(t):
+            if isinstance(t, U.TCtxNone):
+                return {}
             return U._filter_first(t, dict(ctx)) if isinstance(t, (U.TCtx, U.TCtxI)) else dict(ctx)
         want_ctx = {t.label: {k: repr(v) for k, v in sorted(expected(t).items())} for t in leaves + tops}
         return dict(recs=recs, keys=keys, stored=stored, want_ctx=want_ctx, n_results=len(res), leaked=leaked,
@@ -114,12 +120,20 @@ def run(prop, report, tier, seed, replay=None):
         # an empty Lab context (identity filter), and a filter that selects nothing, still reach run() as {}
         cfgs.append(dict(backend='serial', max_workers=1, filter=False, n=2, context={}, helper_thread=False, rerun=False))
         cfgs.append(dict(backend='fork', max_workers=2, filter=False, n=2, context={}, helper_thread=False, rerun=False))
+        for b in ('serial', 'fork', 'spawn'):
+            cfgs.append(dict(backend=b, max_workers=2, filter='none', n=2, context={'a': 1, 'k0': 'x'}, helper_thread=False, rerun=False))
+        for b in ('serial', 'fork'):
+            cfgs.append(dict(backend=b, max_workers=2, filter=False, n=2, context={'a': 1}, lock_in_context=True, helper_thread=False, rerun=False))
     dist = Counter()
     samples = []
     baseline = {}
     caller_pid, caller_thread = os.getpid(), threading.get_ident()
     for cfg in cfgs:
-        out = run_config(cfg)
+        try:
+            out = run_config(cfg)
+        except BaseException as e:   # noqa
+            report.violation('C16:run-raised', f'run_tasks under {cfg["backend"]} raised {e!r}', dict(config=cfg))
+            continue
         starts = [r for r in out['recs'] if r['kind'] == 'start' and r['label'] < 200]
         dist[f"backend={cfg['backend']}"] += 1
         dist['task_executions'] += len(starts)
